@@ -265,10 +265,21 @@ def chunks(it, n):
 def design_mc(ctx):
     from harness.core import MachineryError, parse_tla_value
     import re
-    r = ctx.mc("PathNSMC", ctx.pick("PathNSMC.cfg", "PathNSMC.thorough.cfg"), label="containment decided component-wise")
+    # No -coverage here: TLC's cost accounting of the recursive path operators makes the run ~10x slower.  The vacuity
+    # guard is exact instead: every enumerated case yields its own state, so the number of distinct states must equal
+    # the size of the enumeration (3 roots; S symbols, names of <= L components; D symbols for descendant names of
+    # <= 2 components, lists of <= 2 names; Init picks the first component).
+    S, L, D = ctx.pick((9, 3, 6), (13, 4, 13))
+    names = sum(S ** k for k in range(1, L + 1))
+    dn = D + D * D
+    expect = dict(Init=3 * S, CaseChild=3 * names, CasePreauth=3 * names, CaseDesc=3 * (S + dn + dn * dn))
+    r = ctx.mc("PathNSMC", ctx.pick("PathNSMC.cfg", "PathNSMC.thorough.cfg"), coverage=False, label="containment decided component-wise")
     if not r.ok:
         raise MachineryError("PathNS reference algorithms violate the property / lexical lemmas: " + r.error)
-    ctx.require_actions("PathNSMC", ["CaseChild", "CasePreauth", "CaseDesc"])
+    if r.distinct != sum(expect.values()):
+        raise MachineryError("vacuity: PathNSMC explored %d states, the enumeration has %d (%s)" % (r.distinct, sum(expect.values()), expect))
+    for k, v in expect.items():
+        ctx.coverage_actions["PathNSMC." + k] = v
     # Impl layer as coded (str.startswith containment): a TLC counterexample here is a design-level
     # diagnosis only; it is replayed on the real code and the verdict comes from validating that execution.
     r2 = ctx.mc("PathNSMC", "PathNSMC.string.cfg", must_pass=False, coverage=False, label="containment decided by str.startswith (as coded)")
@@ -343,7 +354,7 @@ def run(ctx):
         cex_idx = len(traces)
         traces.append(t)
     # random longer names
-    for _ in range(ctx.pick(10, 600)):
+    for _ in range(ctx.pick(10, 200)):
         cases = []
         for _ in range(B):
             n = rng.randint(4, 8)
@@ -376,7 +387,7 @@ def run(ctx):
         for batch in chunks(lst, B):
             traces.append(run_web_batch(ns, reactor, ign, batch))
             nwexh += len(batch)
-    for _ in range(ctx.pick(6, 200)):
+    for _ in range(ctx.pick(6, 100)):
         batch = []
         for _ in range(B):
             n = rng.randint(3, 7)
@@ -399,9 +410,23 @@ def run(ctx):
               "descendant/InsecurePath", "web/acc0-served0", "web/acc1-served1", "web/acc1-served0", "web/acc2-served1"):
         if not oc.get(k):
             raise MachineryError("vacuity: no real execution with outcome %s" % k)
+    # bookkeeping: every call / request is one real execution of its own
+    import hashlib
+    import json
     for t in traces:
-        kinds = {(e["e"], e.get("res"), len(e.get("acc", ())), len(e.get("served", ()))) for e in t["ev"]}
-        ctx.note_trace(_slim(t), nontrivial=len(kinds) >= 2)
+        hdr = json.dumps([t["cfg"], t["kind"], t.get("rootkind"), t.get("bmode"), t.get("argb"), t.get("ignored")])
+        inputs = t["cases"] if t["kind"] == "fp" else t["targets"]
+        for inp, e in zip(inputs, t["ev"]):
+            ctx.evaluations += 1
+            ctx.distinct.add(hashlib.sha1((hdr + json.dumps([inp, {k: e[k] for k in SPEC_KEYS if k in e}], sort_keys=True)).encode()).hexdigest()[:16])
+    pick = {}
+    for t in traces:
+        inputs = t["cases"] if t["kind"] == "fp" else t["targets"]
+        for inp, e in zip(inputs, t["ev"]):
+            k = "%s/%s/%d" % (e["e"], e.get("res"), len(e.get("acc", ())))
+            if k not in pick and len(pick) < 6:
+                pick[k] = dict(cfg=t["cfg"], kind=t["kind"], input=inp, ev=[e])
+    ctx.samples = list(pick.values())
     # PathNSTrace records an unexplained event and goes on, so every event of every batch is checked;
     # each call / request is an independent real execution: count the accepted ones.
     rej = ctx.validate("PathNSTrace", [spec_view(t) for t in traces], shard_size=max(20, -(-len(traces) // ctx.pick(4, 16))), count=False)
